@@ -558,3 +558,12 @@ silent("C20", "kde-hoisted-estimator", [E(KDEF, "KDEVectorizer.transform", "    
 silent("C20", "outlier-guard-mirrored", E(VEC, "add_outier_bins", "    if interval_list[0].left > absolute_range[0]:", "    if absolute_range[0] < interval_list[0].left:"), "same test the other way round")
 fire("C20", "kde-fit-on-all", "R20.3", E(KDEF, "KDEVectorizer.transform", "            kde.fit(sample[:, None])", "            kde.fit(np.hstack(X)[:, None])"),
      "every row's density fitted on the whole batch")
+
+# --- C14: polarity of the mask comparison (from the mutation smoke test)
+fire("C14", "mask-comparison-negated", "R14.3", E(WK, "geometric_kernel", "        result[window == mask_index] = 0.0", "        result[window != mask_index] = 0.0"),
+     "everything except the mask is zeroed")
+silent("C14", "mask-comparison-mirrored", E(WK, "geometric_kernel", "        result[window == mask_index] = 0.0", "        result[mask_index == window] = 0.0"), "same mask the other way round")
+
+# --- C03: window total only under the normalisation flag (from the mutation smoke test)
+fire("C03", "normalisation-always-on", "R3.6", E(TOK, "numba_build_skip_grams", "            if normalize_windows:\n", "            if True:\n"),
+     "weights divided by the window total although normalize_windows is off")
